@@ -7,7 +7,8 @@ endpoint has been closed."
 
 Repaired code (model in `Model.lean`): `return_implies_done` holds in EVERY reachable state,
 for any number of handlers, any number of callers (caller ids are arbitrary naturals), and
-every schedule — any finite list of labels, in which the callers' steps, the handlers'
+every schedule — any finite list of labels, in which the callers' steps, panicking accept tasks
+(`panic j`: the run loop breaks to the same teardown), the handlers'
 completions (arbitrarily slow: enabled only after the environment's `release`), the endpoint
 being closed from outside (`extClose`), and callers being dropped are interleaved at will.
 
@@ -107,6 +108,26 @@ theorem unrepaired_drop_aborts :
     (execOld (init 1) [.call 0, .call 1, .runBreak, .drop 0]).run = .aborted ∧
     (execOld (init 1) [.call 0, .call 1, .runBreak, .drop 0]).callers 1 = .returned := by decide
 
+/-- If the run loop unwound on a panicked accept task instead of breaking to the teardown, the
+property would fail for EVERY caller: the joiner and all later ones return although no handler
+shutdown ran and the endpoint is open. -/
+theorem unwinding_counterexample :
+    (execUnwind (init 1) [.panic 0, .call 0, .lock 0, .inspect 0, .join 0, .call 1, .lock 1, .inspect 1]).callers 0 = .returned ∧
+    (execUnwind (init 1) [.panic 0, .call 0, .lock 0, .inspect 0, .join 0, .call 1, .lock 1, .inspect 1]).callers 1 = .returned ∧
+    (execUnwind (init 1) [.panic 0, .call 0, .lock 0, .inspect 0, .join 0, .call 1, .lock 1, .inspect 1]).hdone 0 = false ∧
+    (execUnwind (init 1) [.panic 0, .call 0, .lock 0, .inspect 0, .join 0, .call 1, .lock 1, .inspect 1]).epClosed = false := by
+  decide
+
+/-- **panic_breaks_to_teardown** — with the code as it is, a panicked accept task alone (no
+shutdown call, endpoint open) makes the run loop leave the accept loop and run the full teardown:
+once the handlers are released the run task can always move on until it has exited. -/
+theorem panic_triggers_teardown (h : Nat) :
+    (exec (init h) [.panic 0, .runBreak]).run = .handlers := by
+  simp [exec, step, init, Generated.C41.panicArmBreaks]
+
+example : (exec (init 1) [.panic 0, .runBreak, .release 0, .handler 0, .runClose, .runExit, .call 0, .lock 0,
+    .inspect 0, .join 0]).callers 0 = .returned := by decide
+
 /-- On the repaired code dropping a caller never disturbs the run task. -/
 theorem drop_keeps_run (s : State) (i : Nat) : (step s (.drop i)).run = s.run ∧ (step s (.drop i)).slot = s.slot := by
   simp only [step]
@@ -117,6 +138,6 @@ no `is_shutdown()` early return, the task lock is awaited (async mutex held acro
 and the slot is cleared only after the handle resolved. -/
 theorem source_shape :
     Generated.C41.shutdownHasEarlyReturn = 0 ∧ Generated.C41.taskLockIsAsync = 1 ∧
-    Generated.C41.slotClearedAfterJoin = 1 := by decide
+    Generated.C41.slotClearedAfterJoin = 1 ∧ Generated.C41.panicArmBreaks = 1 := by decide
 
 end IrohModel.C41
